@@ -421,6 +421,8 @@ func TestVerifBufferGeometry(t *testing.T) { //nolint:cyclop,gocognit
 				}
 				r.drain(rng, 0)
 				r.read(10) // would block (or not, if something is left)
+				r.close()
+				r.read(10) // drained and closed: end of file, nothing stale
 			}
 		}
 		if ring < 128*1024 {
